@@ -112,6 +112,8 @@ def daun_transform(data, reg=0.0, degree=0, dr=1.0, direction='inverse',
         raise ValueError('Wrong regularization format "{}"'.format(reg))
     else:
         reg_type, strength = reg
+        if reg_type not in ['diff', 'L2', 'L2c']:
+            raise ValueError('Wrong regularization type "{}"'.format(reg_type))
 
     # load the basis sets and compute the transform matrix
     M = get_bs_cached(w, degree, reg_type, strength, direction, basis_dir,
